@@ -171,6 +171,13 @@ def run(prop, tier, seed):
                                     if (ow, oa) != (wallet, acct):
                                         n += 1
                                         ops.append(dict(base, id="o%d" % n, keyof=ow + "/" + oa))
+                if kind in ("gen", "att"):
+                    # two-entry batches over every pair of accounts from different wallets: each position is decided for its own account
+                    bk = "multi2" if kind == "gen" else "atts2"
+                    for wi_, w1_ in enumerate(WALLETS):
+                        for w2_ in WALLETS[wi_ + 1:] + WALLETS[:wi_]:
+                            n += 1
+                            ops.append(dict(id="o%d" % n, kind=bk, client="c1", wallet=w1_, acct=ACCTS[n % len(ACCTS)], second="%s/%s" % (w2_, ACCTS[(n + 1) % len(ACCTS)]), epoch=10 * n))
                 n += 1
                 ops.append(dict(id="o%d" % n, kind=kind, client="", wallet=tw, acct=tacct if tacct else "", epoch=10 * n))
                 n += 1
